@@ -55,6 +55,7 @@ pub fn run(cx: &mut Cx) {
         ("join", "{{ ks | join(sep=sep) }}"),
         ("join_nosep", "{{ ks | join }}"),
         ("rev", "{{ ks | reverse }}"),
+        ("revsb", "{{ s | reverse }}\u{1}{{ s | reverse | reverse == s }}"),
         ("splitjoin", "{{ s | split(pat=p) | join(sep=p) }}"),
         ("split", "{{ s | split(pat=p) | length }}"),
         ("mapf", "{{ m | keys | length }}|{{ m | values | length }}|{{ m | pairs | length }}|{{ m | length }}|{% for p in m | pairs %}{{ m[p[0]] == p[1] }},{% endfor %}|{% for k in m | keys %}{{ k in m }},{% endfor %}"),
@@ -339,6 +340,21 @@ pub fn run(cx: &mut Cx) {
                 Ok(out) if out == exp => {}
                 Ok(out) => cx.violation("C16/reverse-wrong", format!("reverse rendered {out}, expected {exp}"), replay.clone()),
                 Err(e) => cx.violation("C16/access-filter-error", format!("reverse failed: {e}"), replay.clone()),
+            }
+        }
+        // reverse of a string: by characters (what reversing bytes gives is C17's business: the quantifier here is arrays)
+        {
+            let s = gen_string(&mut rng);
+            let mut cr = Context::new();
+            cr.insert_value("s", tera::Value::from(s.as_str()));
+            if let Some(r) = render!("revsb", &cr) {
+                let exp = format!("{}\u{1}true", s.chars().rev().collect::<String>());
+                cx.cell(format!("reverse-string|{}", if s.is_ascii() { "ascii" } else { "unicode" }));
+                match r {
+                    Ok(out) if out == exp => cx.count("string_reversals_verified", 1),
+                    Ok(out) => cx.violation("C16/reverse-wrong/string", format!("reverse of {s:?} rendered {out:?}, expected {exp:?}"), json!({"s": s})),
+                    Err(e) => cx.violation("C16/access-filter-error", format!("reverse failed on {s:?}: {e}"), json!({"s": s})),
+                }
             }
         }
         let sep = gen_string(&mut rng);
